@@ -39,6 +39,7 @@ import (
 	"net/url"
 	"sort"
 	"strings"
+	"sync"
 	"testing"
 	"time"
 	"unicode/utf8"
@@ -1034,6 +1035,164 @@ func (m *c16Mon) transportPhase(tr *c16Transport, written []*Tup) {
 	}
 }
 
+// concurrentReadPhase (T5): several clients list at the same time (both
+// transports, the whole store and single namespaces); each must read exactly the
+// written strings, as it does alone.
+func (m *c16Mon) concurrentReadPhase(tr *c16Transport, written []*Tup) {
+	run, c := m.run, m.c
+	type job struct {
+		via  string
+		ns   string // "" = everything
+		want []*Tup
+		got  []*Tup
+		err  string
+	}
+	nss := map[string]bool{}
+	for _, t := range written {
+		nss[t.Namespace] = true
+	}
+	var names []string
+	for n := range nss {
+		names = append(names, n)
+	}
+	sort.Strings(names)
+	for round := 0; round < 2; round++ {
+		var jobs []*job
+		for k := 0; k < 6; k++ {
+			j := &job{via: []string{"rest", "grpc"}[(k+round)%2]}
+			if k >= 2 {
+				j.ns = names[(k+round)%len(names)]
+			}
+			for _, w := range written {
+				if j.ns == "" || w.Namespace == j.ns {
+					j.want = append(j.want, w)
+				}
+			}
+			jobs = append(jobs, j)
+		}
+		var wg sync.WaitGroup
+		start := make(chan struct{})
+		for _, j := range jobs {
+			wg.Add(1)
+			go func(j *job) {
+				defer wg.Done()
+				<-start
+				q := &ketoapi.RelationQuery{}
+				if j.ns != "" {
+					q.Namespace = sp(j.ns)
+				}
+				if j.via == "rest" {
+					j.got, j.err = tr.listREST(q.ToURLQuery(), c.PageSize)
+				} else {
+					j.got, j.err = tr.listGRPC(q, c.PageSize)
+				}
+			}(j)
+		}
+		close(start)
+		wg.Wait()
+		for _, j := range jobs {
+			run.eval(1)
+			run.count("concurrent_lists", 1)
+			if j.err != "" {
+				m.violate("concurrent-list", "C16:list-"+j.via+":concurrent:error", fmt.Sprintf("%s list next to %d other list requests failed: %s", j.via, len(jobs)-1, j.err), nil)
+			} else if cls, det := multisetDiff(j.want, j.got); cls != "" {
+				m.violate("concurrent-list", "C16:list-"+j.via+":concurrent:"+cls, fmt.Sprintf("%s list (namespace filter %q) issued together with %d other list requests returned %d tuples that differ from the %d written ones: %s %v", j.via, j.ns, len(jobs)-1, len(j.got), len(j.want), cls, det), det)
+			}
+		}
+	}
+}
+
+// deletePhase (T6): part of the written relationships is deleted by exact tuple
+// (PATCH delete / gRPC Transact delete); the names of the REMAINING relationships
+// - many of them shared with deleted ones, also across roles (object of one,
+// subject of another) - must still be read back unchanged.
+func (m *c16Mon) deletePhase(tr *c16Transport, written []*Tup) {
+	run, c := m.run, m.c
+	r := run.p.rng(m.idx, "delete")
+	if len(written) < 2 {
+		return
+	}
+	delKeys := map[string]bool{}
+	var dels []*Tup
+	for _, t := range written {
+		if r.IntN(3) == 0 && !delKeys[tupKey(t)] {
+			delKeys[tupKey(t)] = true
+			dels = append(dels, t)
+		}
+	}
+	if len(dels) == 0 {
+		delKeys[tupKey(written[0])] = true
+		dels = append(dels, written[0])
+	}
+	var remaining []*Tup
+	for _, t := range written {
+		if !delKeys[tupKey(t)] {
+			remaining = append(remaining, t)
+		}
+	}
+	for from := 0; from < len(dels); {
+		to, size := from, 0
+		for to < len(dels) && to-from < 400 && size < 2<<20 {
+			t := dels[to]
+			size += len(t.Namespace) + len(t.Object) + len(t.Relation) + len(c16SubjectName(t)) + 64
+			to++
+		}
+		chunk := dels[from:to]
+		from = to
+		if r.IntN(2) == 0 {
+			deltas := make([]*ketoapi.PatchDelta, len(chunk))
+			for i, t := range chunk {
+				deltas[i] = &ketoapi.PatchDelta{Action: ketoapi.ActionDelete, RelationTuple: t}
+			}
+			st, body, pt := serveHTTP(tr.ctx, tr.write, "PATCH", "/admin/relation-tuples", jsonStr(deltas))
+			if pt != "" || st != 204 {
+				m.violate("delete", fmt.Sprintf("C16:delete-rest-patch:status-%d", st), fmt.Sprintf("PATCH deleting %d written tuples: status %d %s %s", len(chunk), st, trunc(body, 200), trunc(pt, 200)), nil)
+				return
+			}
+		} else {
+			var pts []*rts.RelationTuple
+			for _, t := range chunk {
+				pts = append(pts, t.ToProto())
+			}
+			ctx, cancel := context.WithTimeout(tr.ctx, 60*time.Second)
+			_, err := tr.g.Write.TransactRelationTuples(ctx, &rts.TransactRelationTuplesRequest{RelationTupleDeltas: rts.RelationTupleToDeltas(pts, rts.RelationTupleDelta_ACTION_DELETE)})
+			cancel()
+			if err != nil {
+				m.violate("delete", "C16:delete-grpc-transact:error:"+status.Code(err).String(), fmt.Sprintf("gRPC Transact deleting %d written tuples: %v", len(pts), trunc(err.Error(), 300)), nil)
+				return
+			}
+		}
+	}
+	run.count("tuples_deleted_by_exact_tuple", int64(len(dels)))
+	shared := 0
+	names := map[string]bool{}
+	for _, t := range dels {
+		names[t.Object] = true
+		names[c16SubjectName(t)] = true
+	}
+	for _, t := range remaining {
+		if names[t.Object] || names[c16SubjectName(t)] {
+			shared++
+		}
+	}
+	run.count("remaining_tuples_sharing_a_name_with_a_deleted_one", int64(shared))
+	for k, via := range []string{"rest", "grpc"} {
+		var got []*Tup
+		var e string
+		if k == 0 {
+			got, e = tr.listREST(url.Values{}, c.PageSize)
+		} else {
+			got, e = tr.listGRPC(&ketoapi.RelationQuery{}, c.PageSize)
+		}
+		run.eval(1)
+		if e != "" {
+			m.violate("delete", "C16:list-"+via+":after-delete:error", via+" list after the delete failed: "+e, nil)
+		} else if cls, det := multisetDiff(remaining, got); cls != "" {
+			m.violate("delete", "C16:list-"+via+":after-delete:"+cls, fmt.Sprintf("after %d of %d written tuples were deleted by exact tuple, %s list differs from the %d remaining ones (%d of them share a name with a deleted tuple): %s %v", len(dels), len(written), via, len(remaining), shared, cls, det), det)
+		}
+	}
+}
+
 func tupTransportable(t *Tup) bool {
 	ok := utf8.ValidString(t.Namespace) && utf8.ValidString(t.Object) && utf8.ValidString(t.Relation)
 	if t.SubjectID != nil {
@@ -1088,6 +1247,10 @@ func TestC16(t *testing.T) {
 						m.rollbackRetryPhase(tr, written)
 					}
 					m.transportPhase(tr, written)
+					if !m.fail {
+						m.concurrentReadPhase(tr, written)
+						m.deletePhase(tr, written)
+					}
 					cancelReqs()
 					g.Close()
 				}
